@@ -51,6 +51,12 @@ def generate(rng, tier):
                         c["xout"] = [(-1) ** (j + 1) * (1.0 + 1.7 * j + 0.1 * abs(v)) for j, v in enumerate(c["xout"])]   # the first point is negative
                         c["desc"]["negative_r"] = True
                         c["desc"].pop("fortran", None)
+                    if (X + Y + rep) % 3 == 1 and c["xin"][0] > 0 and len(c["xin"]) >= 4 and sorted(c["xin"]) == c["xin"]:
+                        # a lower limit given as keyword: Qmin of the correction is the first point actually transformed, not the keyword
+                        xs_ = c["xin"]
+                        c["xmin"] = [0.5 * xs_[0], 0.6 * xs_[1] + 0.4 * xs_[2], xs_[1], 0.0][(X + 2 * Y + rep) % 4]
+                        c["desc"]["window"] = "lower limit keyword"
+                        c["desc"].pop("fortran", None)
                     # physical-looking S(Q): positive at Qmin
                     c["desc"]["Qmin0"] = c["xin"][0] == 0.0
                     cases.append(c)
@@ -110,13 +116,17 @@ def oracle(pystog, case, res):
         else:
             dG = y_on - y_off
     f = to_F(case)
-    qmin, qmax = case["xin"][0], case["xin"][-1]
+    lo_kw = case.get("xmin")
+    k0 = 0 if lo_kw is None else min(i for i, v in enumerate(case["xin"]) if v >= lo_kw)
+    f = f[k0:]
+    xin_k = case["xin"][k0:]
+    qmin, qmax = xin_k[0], xin_k[-1]
     if qmin == 0.0:
         if not np.array_equal(y_on, y_off):
             return "correction not zero although Qmin = 0"
         return None
     s0 = f[0] / qmin + 1.0
-    _, _, _, mag, _ = F.l1_scale({"xin": case["xin"], "yin": f.tolist(), "dy": None, "xmin": None, "xmax": None, "lorch": case["lorch"]})
+    _, _, _, mag, _ = F.l1_scale({"xin": xin_k, "yin": f.tolist(), "dy": None, "xmin": None, "xmax": None, "lorch": case["lorch"]})
     for ri, d, a, b in zip(r, dG, y_on, y_off):
         if ri == 0:
             if a != b:
@@ -139,12 +149,12 @@ def oracle(pystog, case, res):
     # depends on the data only through Qmin, S(Qmin), Qmax
     if len(case["yin"]) > 2:
         y2 = list(case["yin"])
-        for i in range(1, len(y2) - 1):
+        for i in range(k0 + 1, len(y2) - 1):
             y2[i] = y2[i] * 0.5 + 0.25
         _, a2, _ = F.call_named(pystog, case, yin=y2)
         _, b2, _ = F.call_named(pystog, case, yin=y2, omitted=False)
-        f2 = to_F(dict(case, yin=y2))
-        _, _, _, mag2, _ = F.l1_scale({"xin": case["xin"], "yin": f2.tolist(), "dy": None, "xmin": None, "xmax": None, "lorch": case["lorch"]})
+        f2 = to_F(dict(case, yin=y2))[k0:]
+        _, _, _, mag2, _ = F.l1_scale({"xin": xin_k, "yin": f2.tolist(), "dy": None, "xmin": None, "xmax": None, "lorch": case["lorch"]})
         with np.errstate(all="ignore"):
             d1, d2 = (y_on - y_off), (a2 - b2)
             conv = {"g": 4 * math.pi * m["rho"] * r, "GK": 4 * math.pi * m["rho"] * r / m["bcoh"], "G": 1.0}[Yn]
